@@ -134,12 +134,13 @@ def run(ctx):
         ck.ob("C19-T", tx.fn, "%s:%s" % (tx.sig(), keytxt), tx.guard_ok, detail=tx.why, site=tx.site())
     for fn, construct, detail, site in A.problems:
         ck.ob("C19-T", fn, construct, False, detail=detail, site=site)
-    ck.floor("C19-T", "event-construction-sites", len(A.emit_sites), 14)
+    ck.floor("C19-T", "event-construction-sites", len(A.emit_sites), 6)
     kinds = {}
     for tx in A.txs:
         kinds.setdefault(tx.kind, set()).add((tx.fn, tx.site()))
     ck.analysed["transaction_sites"] = {k: len(v) for k, v in sorted(kinds.items())}
-    for k, floor in (("PRESS", 3), ("RELEASE", 4), ("MOVE", 2), ("REPRESS", 1), ("REPRESS+MOVE", 1), ("BATCHEMIT", 2)):
+    # (vacuity guards only: a refactoring may merge sites or turn one transaction idiom into another)
+    for k, floor in (("PRESS", 1), ("RELEASE", 2)):
         ck.floor("C19-T", "sites-of-%s" % k, len(kinds.get(k, ())), floor)
     check_via_i2(ctx, ck, K, A)
 
@@ -298,7 +299,7 @@ def check_flow(ctx, ck, K):
                     n += 1
                     ok = mir.strip(e.aux[2]) in flow
                     ck.ob("C19-F", body.path, "mapped-batch-reaches-the-output", ok, site=e.ev.span)
-    ck.floor("C19-F", "flow-obligations", n, 20)
+    ck.floor("C19-F", "flow-obligations", n, 8)
     # Mapper::step returns the callee's result unchanged
     step = ctx.body(MOD + "Mapper::step")
     for p in mir.walk_function(step):
